@@ -107,7 +107,8 @@ IDIOMS = [
     (r"<double>(\w+)\.get_pointer\(\)\[0\]", r"_rt.load_double(\1)"),
     (r"PyBytes_FromStringAndSize\((\w+)\.get_pointer\(\), (\w+)\)", r"_rt.bytes_at(\1, \2)"),
     (r"PyUnicode_DecodeUTF8\((\w+)\.get_pointer\(\), (\w+), \"ignore\"\)", r"_rt.str_at(\1, \2)"),
-    (r"PyBytes_GET_SIZE\((?:<bytes>)?(\w+)\)", r"len(\1)"),
+    (r"PyBytes_GET_SIZE\((?:<bytes>)?(\w+)\)", r"_rt.size(\1)"),
+    (r"len\(str\(([^()]+)\)\)", r"_rt.len_str(\1)"),
     (r"\(<ThriftObject>(\w+)\)\.data", r"\1.data"),
     (r"<(?:list|dict|str|bytes)>(\w+)", r"\1"),
     (r"\(<(?:list|dict|str|bytes)>(\w+)\)", r"\1"),
@@ -164,6 +165,8 @@ def lift(name, cls=None, check_drift=True):
             ctype = m.group(1)
             if m.group(3):
                 ctype = "char *"
+            if m.group(2):
+                ctype = "object"       # typed memoryview, not a scalar
             rest = m.group(4)
             # split on commas not inside parentheses/brackets
             parts, depth, cur = [], 0, ""
